@@ -162,7 +162,8 @@ def run(ctx):
                ctx.where(z, f.term.line), '', construct='resize:forget-origin')
 
     # ---- R07.4 surplus on return ---------------------------------------------------------------
-    for h in [x for x in r.RETURN + r.TAKE if x.path not in (r.OBJ_DROP.path, r.OBJ_TAKE.path)]:
+    surplus_guard(ctx, r, 'R07.4', [x for x in r.RETURN + r.TAKE if x.path not in (r.OBJ_DROP.path, r.OBJ_TAKE.path)])
+    for h in []:
         han = prog.an(h)
         ctx.saw(h)
         for blk in h.blocks:
@@ -254,3 +255,25 @@ def _depends_on_local(an, op, l, depth=0, seen=None):
                 if _depends_on_local(an, a, l, depth + 1, seen):
                     return True
     return False
+
+
+def surplus_guard(ctx, r, rule, helpers):
+    prog = ctx.prog
+    for h in helpers:
+        han = prog.an(h)
+        ctx.saw(h)
+        for blk in h.blocks:
+            if not r.is_sem_call(h, blk.term, 'add_permits'):
+                continue
+            rels = governing_relations(han, r, blk.idx)
+            dec = r.field_writes(h, r.SLOTS, r.SIZE)
+            okrel = False; detail = 'no comparison of size and max_size governs this add_permits'
+            for rel, swbb, cmpbb in rels:
+                after_dec = any((han.dominates(wbb, cmpbb)) for wbb, _, s in dec if classify_write(han, s)[0] == '-=')
+                w = 'size<max' if after_dec else 'size<=max'
+                okrel = okrel or rel == w
+                detail = 'governing test `%s`, expected `%s`' % (rel, w)
+            ctx.ob(rule, 'permit withheld exactly while size > max_size', okrel, ctx.where(h, blk.term.line), detail if not okrel else '',
+                   construct='surplus-guard:' + h.name)
+        locks = [x for x in h.blocks if x.term.kind == 'call' and x.term.callee_names() & {'std::sync::Mutex::lock'} and not x.cleanup]
+        ctx.ob(rule, 'decision and update under a single lock acquisition', len(locks) == 1, ctx.where(h), '%d lock() calls' % len(locks), construct='surplus-lock:' + h.name)
